@@ -13,6 +13,11 @@ def programs(ctx):
     out = []
     for i in range(n):
         td = F.random_typedef(rng, SUBSETS[i % len(SUBSETS)], allow_p=False, max_fields=3)
+        if td.entry == "attr" and len(td.derived) > 1 and i % 3 == 0:
+            # Hash requested by a stacked sibling attribute (the eq / ord helper attributes are shared with the first list)
+            td.entry = ["attr_split", "attr_split_colon", "attr_split_last"][(i // 3) % 3]
+            if "Hash" in td.derived:
+                td.derived = [t for t in td.derived if t != "Hash"] + ["Hash"]      # Hash comes last: it lands in the sibling
         out.append(F.build_prog("p_%04d" % i, td, want=("Hash",)))
     return out
 
